@@ -3249,3 +3249,9 @@ fn format_type_mismatch(expected_ty: &Type, actual_ty: &Type) -> ErrorMessage {
 
     ErrorMessage(parts)
 }
+
+/// Expose `unify` to the external verification harness.
+#[cfg(wilfred_garden_verif)]
+pub(crate) fn verif_unify(ty_1: &Type, ty_2: &Type) -> Option<Type> {
+    unify(ty_1, ty_2)
+}
